@@ -236,7 +236,7 @@ class HeapFields:
         self.plain = dict(plain)
 
     def __contains__(self, name):
-        return name in HEAP_FIELDS or name in self.plain or name in ('address', 'needed_addresses')
+        return name in HEAP_FIELDS or name in self.plain or name in ('address', 'needed_addresses', 'addresses')
 
     def __getitem__(self, name):
         if name in HEAP_FIELDS:
@@ -245,6 +245,8 @@ class HeapFields:
             return sym.SOpaque(t, FKind) if name == 'formula' else opaque(t)
         if name == 'address' and name not in self.plain:
             return SAddrObj(self.node)
+        if name == 'addresses' and name not in self.plain:
+            return SMemberTable(self.node)
         if name == 'needed_addresses' and name not in self.plain:
             # the addresses the node's formula (or the range) needs: its read-precedents
             d = self.node
@@ -321,6 +323,16 @@ class SCellMap:
                     if i.ex.branch(z3.Select(heap_of(i.ex)['set:cell_map'], key.node)):
                         return heap_cell(i, key.node)
                     return default
+                if isinstance(key, SAddrKey):
+                    return heap_cell(i, key.node)      # A-MAP
+                if isinstance(key, (str, sym.SStr)):
+                    t = sym.str_term(key)
+                    if not i.ex.branch(INMAP(t)):
+                        return default
+                    nd = CELLMAP(t)
+                    if self.classes and i.ex.branch(ISRANGE(nd)):
+                        return heap_cell(i, nd, 'pycel.excelcompiler:_CellRange')
+                    return heap_cell(i, nd)
                 raise Unsupported('cell_map.get with this key', n)
             return Builtin('cell_map.get', get)
         raise Unsupported(f'cell_map.{name}', node)
@@ -346,6 +358,86 @@ class SCellMap:
                 return mk_bool(z3.Select(heap_of(interp.ex)['set:cell_map'], item.node))
             return True          # A-MAP
         return mk_bool(INMAP(sym.str_term(item)))
+
+
+class SMemberTable:
+    """range.addresses: the rows of member addresses of a range node (members = its read-precedents)"""
+
+    def __init__(self, node):
+        self.node = node
+
+
+class SMemberTableGen:
+    """a generator expression over the rows of a member table, not yet consumed"""
+
+    def __init__(self, table, gen_node, env):
+        self.table = table
+        self.gen_node = gen_node
+        self.env = env
+
+
+def consume_member_table(interp, gen, node):
+    """tuple(tuple(E(addr) for addr in row) for row in range.addresses): E is evaluated once for every member of the
+    range, in some order; it may change the heap (E evaluates the member).  Cut like a loop at the invariants the
+    contract gives under the key 'members'; the result is the table of what E returned, which for E = _evaluate is the
+    table of the members' values: by definition the value F(range, values) of a range node without formula."""
+    import ast
+    from .interp import Env
+    from .vc import PathDone
+    vr = interp.world.verifier
+    c = vr.active
+    invs = (getattr(c, 'invariants', None) or {}).get('members')
+    g_outer = gen.gen_node
+    if invs is None:
+        raise Unsupported('comprehension over the members of a range without invariants', node)
+    inner = g_outer.elt
+    # expected shape: tuple(<genexp over the row>)
+    if not (isinstance(inner, ast.Call) and isinstance(inner.func, ast.Name) and inner.func.id == 'tuple'
+            and len(inner.args) == 1 and isinstance(inner.args[0], ast.GeneratorExp)
+            and len(inner.args[0].generators) == 1 and not inner.args[0].generators[0].ifs
+            and len(g_outer.generators) == 1 and not g_outer.generators[0].ifs):
+        raise Unsupported('comprehension over the members of a range: unexpected shape', node)
+    g_in = inner.args[0]
+    ex = interp.ex
+    rng = gen.table.node
+    args = vr.current_args
+    owner = c.name
+    vr.loop_env = gen.env
+    vr.loop_heap = dict(heap_of(ex))
+    vr.done_set = z3.K(Node, False)
+    for i, inv in enumerate(invs):
+        vr.oblige_spec(f'{owner}/inv-init@members#{i}:{inv.__name__}', 'inv-init', inv, args)
+    entry = dict(heap_of(ex))
+    ex.heap = fresh_heap(ex, 'members')
+    for f_ in entry:
+        if f_ != 'value':
+            ex.heap[f_] = entry[f_]          # evaluating members computes values, nothing else (checked at inv-keep)
+    done = z3.Array(ex.fresh_name('done@members'), Node, z3.BoolSort())
+    m = z3.Const(ex.fresh_name('dm'), Node)
+    ex.assume(z3.ForAll([m], z3.Implies(z3.Select(done, m), READS(m, rng))))
+    vr.done_set = done
+    for inv in invs:
+        vr.assume_spec(inv, args)
+    if ex.choose(2) == 0:
+        cn = z3.Const(ex.fresh_name('member'), Node)
+        ex.assume(z3.And(READS(cn, rng), z3.Not(z3.Select(done, cn))))
+        cenv = Env({}, gen.env, gen.env.module)
+        interp.assign(g_in.generators[0].target, SAddrObj(cn), cenv)
+        interp.eval(g_in.elt, cenv)
+        vr.done_set = z3.Store(done, cn, True)
+        for i, inv in enumerate(invs):
+            vr.oblige_spec(f'{owner}/inv-keep@members#{i}:{inv.__name__}', 'inv-keep', inv, args)
+        cur = heap_of(ex)
+        vr.oblige(f'{owner}/inv-keep@members:frame', 'inv-keep',
+                  mk_bool(z3.And(*[cur[f_] == entry[f_] for f_ in entry if f_ != 'value'])))
+        raise PathDone()
+    m2 = z3.Const(ex.fresh_name('dm'), Node)
+    ex.assume(z3.ForAll([m2], z3.Implies(READS(m2, rng), z3.Select(done, m2))))
+    interp.world.trusted.add('A-RANGE-F: the value of a range node without formula is the table of the values of its '
+                             'members: F(range, values) is that table (definition)')
+    r = FSEM(rng, heap_of(ex)['value'])
+    ex.assume(r != NONE_V)
+    return opaque(r)
 
 
 class SAbstractSet:
@@ -608,6 +700,10 @@ def sx_old_has_formula(interp, args, kwargs, node):
 def sx_same_formula(interp, args, kwargs, node):
     n = _node(args[0])
     return mk_bool(z3.Select(cur_heap(interp)['formula'], n) == z3.Select(old_heap(interp)['formula'], n))
+
+
+def sx_is_unbounded(interp, args, kwargs, node):
+    return mk_bool(ISUNBOUNDED(_node(args[0])))
 
 
 def sx_is_range(interp, args, kwargs, node):
